@@ -9,14 +9,16 @@ from harness.extract import session as x_session
 from harness.rigs import session as rig
 
 MANIFEST = {
-    "text": "Lean 4 proof, for every state of two or more connected nodes and every sequence of add-user, disable-user, change-password, "
-            "local/remote login, local/remote command, logoff, service verbs, node power requests and ticks, about an executable model of "
+    "text": "Lean 4 proof, for every state of two or more connected nodes and every sequence of add-user, disable-user, enable-user, "
+            "change-password, local/remote login, the direct user-session-manager login/logout requests, local/remote terminal commands "
+            "carrying any node request (nested to any depth), logoff, service verbs, node power requests and ticks, about an executable model of "
             "UserManager / UserSessionManager / Terminal: a session appears only through a login with the current password of an existing, "
             "enabled account on a powered-on node with running managers and (remote) under the session limit, and every such attempt on an "
             "open path succeeds; a command changes the target only through a connection whose id is a live remote session of the target "
             "(or valid local credentials); session ids are fresh, an ended id is never valid again and commands on it change nothing; "
             "time-out is exact; a password change ends every session of the user; an enabled admin always remains; the session limit is "
-            "never exceeded and a login succeeds again once a session ended. Tie: constants, comparison operators and guard shapes "
+            "never exceeded and a login succeeds again once a session ended; in reachable states a session id has one client connection "
+            "and after a client logoff no node but the target holds it; the disconnect recursion never exhausts its fuel. Tie: constants, comparison operators and guard shapes "
             "regenerated from base.py / terminal.py / service.py (Gen/Session.lean, obligations C16_gen_*) + differential rig R-sess "
             "(2-3 real Computers on a Switch) comparing every answer and the whole session state after every operation, plus the "
             "property's own oracle on the implementation.",
